@@ -46,6 +46,8 @@ int __wrap_epoll_pwait(int epfd, struct epoll_event* ev, int max, int timeout, c
   }
   if (!quiet) {
     extern int poll_flags(void);
+    extern void end_run_ext(void);
+    end_run_ext();
     int f = poll_flags();
     printf("w%d:%d%d%d%d ", timeout, (f >> 3) & 1, (f >> 2) & 1, (f >> 1) & 1, f & 1);
   }
@@ -87,14 +89,46 @@ int poll_flags(void) {
   return (idle << 3) | (closing << 2) | ((loop.stop_flag ? 1 : 0) << 1) | work;
 }
 
+/* Phase completeness, from API-level observations only: a phase is a maximal run of consecutive
+ * callbacks of one of the kinds idle/prepare/check.  Every handle of that kind that is active when
+ * the run's first callback is entered and that no start/stop/close touches during the run must be
+ * called in it ("every handle that stays active for the whole of its phase is called exactly once").
+ */
+static int run_kind = -1;
+static unsigned char snap[MAXH], touched[MAXH], called[MAXH];
+static void end_run(void) {
+  int j;
+  if (run_kind < 0) return;
+  for (j = 0; j < nh; j++)
+    if (snap[j] && !touched[j] && !called[j]) printf("!skipped%d,%d ", run_kind, j);
+  run_kind = -1;
+}
+void end_run_ext(void) { end_run(); }
+static void touch(int i) { if (i >= 0 && i < MAXH) touched[i] = 1; }
+
 static void on_cb(int tag, int id) {
   int k;
   if (quiet) return;
+  if (tag >= 1 && tag <= 3) {
+    if (run_kind != tag) {
+      int j;
+      end_run();
+      run_kind = tag;
+      for (j = 0; j < nh; j++) {
+        snap[j] = H[j]->kind == "-ipc"[tag] && !H[j]->closing && uv_is_active(&H[j]->u.h);
+        touched[j] = called[j] = 0;
+      }
+    }
+    if (id >= 0 && id < MAXH) called[id] = 1;
+  } else {
+    end_run();
+  }
   printf("c%d,%d,%" PRIu64 " l%d ", tag, id, uv_now(&loop), uv_loop_alive(&loop) ? 1 : 0);
   k = cbcount++;
   if (k == CAP) {
     int j;
     uv_stop(&loop); printf("x ");
+    for (j = 0; j < nh; j++) touch(j);
     for (j = 0; j < nh; j++)
       if (usable(j) && !H[j]->closing) {
         extern void close_cb(uv_handle_t*);
@@ -147,6 +181,8 @@ static void do_ops(char* ops, int in_cb) {
       break;
     case 'W':
       if (sscanf(tok + 1, "%d,%d", &i, &c) == 2 && usable(i) && !H[i]->closing) {
+        /* a start on a handle that is active leaves it active: not a disturbance */
+        if (!uv_is_active(&H[i]->u.h)) touch(i);
         if (H[i]->kind == 'i') printf("r%d ", uv_idle_start(&H[i]->u.i, c ? idle_cb : NULL));
         else if (H[i]->kind == 'p') printf("r%d ", uv_prepare_start(&H[i]->u.p, c ? prepare_cb : NULL));
         else if (H[i]->kind == 'c') printf("r%d ", uv_check_start(&H[i]->u.c, c ? check_cb : NULL));
@@ -154,6 +190,7 @@ static void do_ops(char* ops, int in_cb) {
       break;
     case 'T':
       if (sscanf(tok + 1, "%d", &i) == 1 && usable(i)) {
+        touch(i);
         if (H[i]->kind == 't') printf("r%d ", uv_timer_stop(&H[i]->u.t));
         else if (H[i]->kind == 'i') printf("r%d ", uv_idle_stop(&H[i]->u.i));
         else if (H[i]->kind == 'p') printf("r%d ", uv_prepare_stop(&H[i]->u.p));
@@ -164,6 +201,7 @@ static void do_ops(char* ops, int in_cb) {
     case 'U': if (sscanf(tok + 1, "%d", &i) == 1 && usable(i)) uv_unref(&H[i]->u.h); break;
     case 'C':
       if (sscanf(tok + 1, "%d", &i) == 1 && usable(i) && !H[i]->closing) {
+        touch(i);
         H[i]->closing = 1; uv_close(&H[i]->u.h, close_cb);
       }
       break;
@@ -202,7 +240,7 @@ static void do_ops(char* ops, int in_cb) {
     case 'B': printf("b%d ", uv_backend_timeout(&loop)); break;
     case 'R':
       if (!in_cb && sscanf(tok + 1, "%d", &c) == 1 && printf("g%d,%d ", c, uv_loop_alive(&loop) ? 1 : 0))
-        printf("u%d ", uv_run(&loop, c == 0 ? UV_RUN_DEFAULT : c == 1 ? UV_RUN_ONCE : UV_RUN_NOWAIT) ? 1 : 0);
+        { int rr = uv_run(&loop, c == 0 ? UV_RUN_DEFAULT : c == 1 ? UV_RUN_ONCE : UV_RUN_NOWAIT); end_run(); printf("u%d ", rr ? 1 : 0); }
       break;
     case 'Z':
       if (!in_cb) {
@@ -225,7 +263,7 @@ int main(void) {
     *p1++ = 0; p2 = strchr(p1, ';'); if (!p2) { printf("\n"); continue; }
     *p2++ = 0;
     sscanf(line, "%llu %d", &t0, &metrics);
-    vclock_ms = t0; quiet = 0; npolls = 0; nh = nw = nbeh = cbcount = 0;
+    vclock_ms = t0; quiet = 0; npolls = 0; run_kind = -1; nh = nw = nbeh = cbcount = 0;
     uv_loop_init(&loop);
     g_loop = &loop;
     if (metrics) uv_loop_configure(&loop, UV_METRICS_IDLE_TIME);
